@@ -1,6 +1,6 @@
 SPECIFICATION Spec
 CONSTANTS
-  Counts = {101, 255}
+  Counts = {9, 10, 11, 99, 100, 101, 255}
   Dump = TRUE
   Only = {"NAV-SAT", "RXM-RAWX", "AID-ALM", "CFG-VALDEL", "CFG-GNSS", "RXM-SFRBX", "CFG-RINV", "NAV-SBAS", "CFG-VALGET", "CFG-VALSET"}
 INVARIANT DumpLayout
